@@ -40,6 +40,7 @@ type PanicInfo struct {
 
 type State struct {
 	fr      *Frame
+	consumed bool // the state was run to completion by a nested branch
 	heap    map[int]*Obj
 	nextObj int
 	globals map[*ssa.Global]int
